@@ -22,7 +22,7 @@ Supported statements: `x = e`, `x += e` (Nat), `l.append(e)`, `if/elif/else` (st
   Option variable becomes a `match` (the variable is a Str inside the `some` branch; using a possibly-None variable where a str
   is needed is a translation problem).
 Supported expressions: names, str constants, `None`, `[]`, non-negative int constants, `not e`, `a and b`, `a or b` (as
-  conditions), `x or ""` (x Option Str or Str), `s[0] in t`, `s[0] == "c"`, `"c" in t`, `"c" not in t`, `a == b`, `a != b` (Nat/Int),
+  conditions), `x or ""` (x Option Str or Str), `s[0] in t`, `s[0] == "c"`, `"c" in t`, `"c" not in t`, `a == b`, `a != b`, `a < b`, `a <= b`, `a > b`, `a >= b` (Nat/Int),
   `len(s)`, `s.strip()`, `s.upper()`, `s[1:]`, `"".join(l)`, `_white_space.sub("", e)` (checked: `_white_space =
   re.compile(r"\\s+")`), `label_to_name(e)` (convention L1: the identity, its default `str` on a str).
 Anything else is a translation PROBLEM (reported, never skipped).
@@ -157,6 +157,15 @@ class Loop:
             else:
                 raise TranslationError(f"{f}: comparison of a {lty} with a {rty}")
             return (f"!{t}" if isinstance(op, ast.NotEq) else t), BOOL
+        ORD = {ast.Lt: "<", ast.LtE: "≤", ast.Gt: ">", ast.GtE: "≥"}
+        if type(op) in ORD:
+            lt, lty = self.expr(l, env)
+            rt, rty = self.expr(r, env)
+            if not (lty in (NAT, INT) and rty in (NAT, INT)):
+                raise TranslationError(f"{f}: ordering of a {lty} and a {rty}")
+            if lty != rty:
+                lt, rt = (f"({lt} : Int)" if lty == NAT else lt), (f"({rt} : Int)" if rty == NAT else rt)
+            return f"decide ({lt} {ORD[type(op)]} {rt})", BOOL
         raise TranslationError(f"{f}: unsupported comparison {type(op).__name__}")
 
     def call(self, e, env):
